@@ -26,7 +26,10 @@ class IrParseException(Exception):
 def tokenize(lines):
     # Create a regular expression for the lexing part:
     tok_spec = [
-        ("FLOAT", r"\-?\d+\.\d+"),
+        (
+            "FLOAT",
+            r"\-?\d+\.\d+(?:e[\-+]\d+)?|\-?\d+e[\-+]\d+|\-inf(?![A-Za-z\d_])",
+        ),
         ("INT", r"\-?\d+"),
         ("STRING", r"'[^']*'"),
         ("ID", r"[A-Za-z][A-Za-z\d_]*"),
@@ -370,6 +373,9 @@ class Reader:
                 data = self.consume("STRING")[1]
                 data = unhexlify(data)
                 ins = ir.LiteralData(data, name)
+            elif a in ("inf", "nan"):
+                # Non-finite floating point constant (repr of the float)
+                ins = ir.Const(float(a), name, ty)
             else:
                 raise NotImplementedError(a)
         elif self.peek in ["INT", "FLOAT"]:
